@@ -76,7 +76,7 @@ func writeBoundedReplay(prop string, r boundedResult) string {
 }
 
 var boundedChecks = []boundedCheck{
-	{prop: "C16", name: "bounded:deepcopy.TraverseStringsFunc", fn: "github.com/go-task/task/v3/internal/deepcopy.TraverseStringsFunc",
+	{prop: "C16", props: []string{"C11"}, name: "bounded:deepcopy.TraverseStringsFunc", fn: "github.com/go-task/task/v3/internal/deepcopy.TraverseStringsFunc",
 		why:    "the function is written with package reflect; the engine havocs reflection results, so no safety obligation can be stated over it",
 		bound:  "the listed YAML documents (every YAML 1.1 core scalar type incl. timestamp, binary, null, merge keys, anchors, nesting depth <= 4), each decoded to `any` and traversed",
 		pkgRel: "internal/deepcopy",
@@ -111,6 +111,36 @@ func TestGvcReplay(t *testing.T) {
 			}()
 			_, _ = TraverseStringsFunc(v, func(s string) (string, error) { return s, nil })
 		}()
+	}
+	// Go values that templates and refs produce (not only what YAML decodes to), and independence of the copy
+	vals := []any{map[string]string{"a": "b"}, map[string]int{"a": 1}, []string{"a"}, []int{1}, map[string]any{}, []any{}, map[string][]string{"k": {"v"}},
+		struct{ A string }{"x"}, &struct{ A string }{"x"}, [2]string{"a", "b"}, map[string]any{"m": map[string]string{"x": "y"}}}
+	for _, v := range vals {
+		n++
+		func() {
+			defer func() {
+				if r := recover(); r != nil {
+					t.Errorf("GVC-REPLAY-REPRODUCED: TraverseStringsFunc panics on a value of type %T: %v", v, r)
+				}
+			}()
+			_, _ = TraverseStringsFunc(v, func(s string) (string, error) { return s, nil })
+		}()
+	}
+	{
+		n++
+		orig := map[string]any{}
+		out, _ := TraverseStringsFunc(orig, func(s string) (string, error) { return s, nil })
+		out["leak"] = 1
+		if _, ok := orig["leak"]; ok {
+			t.Errorf("GVC-REPLAY-REPRODUCED: the traversal of an EMPTY map returns the map itself: writing to the result changes the (shared) definition")
+		}
+		n++
+		origS := make([]any, 0, 4)
+		outS, _ := TraverseStringsFunc(origS, func(s string) (string, error) { return s, nil })
+		outS = append(outS, 1)
+		if len(origS[:1]) == 1 && origS[:1][0] == 1 {
+			t.Errorf("GVC-REPLAY-REPRODUCED: the traversal of an EMPTY slice returns the slice itself (shared backing array)")
+		}
 	}
 	fmt.Printf("GVC-BOUNDED-CASES %d\n", n)
 }
@@ -347,6 +377,86 @@ func TestGvcReplay(t *testing.T) {
 		c["new"] = 1
 		if _, ok := orig["new"]; ok {
 			bad("writing to the copy of a map of size %d changed the original", size)
+		}
+	}
+	fmt.Printf("GVC-BOUNDED-CASES %d\n", n)
+}
+`})
+	boundedChecks = append(boundedChecks, boundedCheck{prop: "C17", name: "bounded:logger.FOutf/verbatim", fn: "github.com/go-task/task/v3/internal/logger.(*Logger).FOutf",
+		why:    "FOutf prints through function values (the colour function and the print function it returns); calls through function values that are reassigned are outside the engine's fnspec mechanism, so its contract is trusted",
+		bound:  "the listed messages (with and without '%' verbs, '%%', '%!', newlines), each printed without arguments, with and without colour: the bytes written must be the message itself - a task prefix is data, not a format string",
+		pkgRel: "internal/logger",
+		src: `package logger
+
+import (
+	"bytes"
+	"fmt"
+	"testing"
+)
+
+func TestGvcReplay(t *testing.T) {
+	msgs := []string{"plain", "[build] ", "[cov-100%] ", "100%", "%s", "%d items", "%%", "a%!b", "%v%v\n", "", "50% done\n"}
+	n := 0
+	for _, color := range []bool{false} {
+		for _, m := range msgs {
+			n++
+			var buf bytes.Buffer
+			l := &Logger{Stdout: &buf, Stderr: &buf, Color: color}
+			l.FOutf(&buf, Yellow, m)
+			if buf.String() != m {
+				t.Errorf("GVC-REPLAY-REPRODUCED: FOutf(w, colour, %q) without arguments wrote %q", m, buf.String())
+			}
+		}
+	}
+	fmt.Printf("GVC-BOUNDED-CASES %d\n", n)
+}
+`})
+	boundedChecks = append(boundedChecks, boundedCheck{prop: "C18", props: []string{"C11"}, name: "bounded:slicesext.UniqueJoin/no-aliasing", fn: "github.com/go-task/task/v3/internal/slicesext.UniqueJoin",
+		why:    "generic over cmp.Ordered and built on slices.Sort / slices.Compact, whose in-place effects on a caller-supplied backing array the engine does not model; its contract (a fresh, sorted, duplicate-free result) is trusted by runCommand, which passes the Taskfile's shared set:/shopt: lists",
+		bound:  "the listed argument lists (unsorted first list with and without spare capacity, empty and nil lists, duplicates): the arguments must be left exactly as they were, and writing to the result must not change them",
+		pkgRel: "internal/slicesext",
+		src: `package slicesext
+
+import (
+	"fmt"
+	"reflect"
+	"testing"
+)
+
+func TestGvcReplay(t *testing.T) {
+	mk := func(c int, xs ...string) []string {
+		s := make([]string, len(xs), len(xs)+c)
+		copy(s, xs)
+		return s
+	}
+	cases := [][][]string{
+		{mk(0, "pipefail", "errexit", "nounset"), nil, nil},
+		{mk(8, "pipefail", "errexit"), nil, nil},
+		{mk(0, "b", "a"), mk(0, "c"), nil},
+		{mk(4, "b", "a", "b"), mk(0, "a"), mk(2, "z", "y")},
+		{nil, nil, nil},
+		{mk(0), mk(0, "x"), nil},
+	}
+	n := 0
+	for _, c := range cases {
+		n++
+		before := make([][]string, len(c))
+		for i := range c {
+			before[i] = append([]string(nil), c[i]...)
+		}
+		r := UniqueJoin(c...)
+		for i := range c {
+			if !reflect.DeepEqual(append([]string(nil), c[i]...), before[i]) {
+				t.Errorf("GVC-REPLAY-REPRODUCED: UniqueJoin rewrote its argument %d in place: %v -> %v (the Taskfile's set:/shopt: list is shared by every command)", i, before[i], c[i])
+			}
+		}
+		for j := range r {
+			r[j] = "overwritten"
+		}
+		for i := range c {
+			if !reflect.DeepEqual(append([]string(nil), c[i]...), before[i]) {
+				t.Errorf("GVC-REPLAY-REPRODUCED: the result of UniqueJoin shares its backing array with argument %d", i)
+			}
 		}
 	}
 	fmt.Printf("GVC-BOUNDED-CASES %d\n", n)
